@@ -50,7 +50,7 @@ var chain *base.SlotChain
 var caseNo int
 
 func genRule(rng *rand.Rand) ruleDesc {
-	return ruleDesc{Thr: vk.PickF(rng, 0.5, 1, 2, 3, 7, 10, 100, 1000), Interval: vk.PickU32(rng, 0, 0, 100, 1000, 10000), MaxQ: vk.PickU32(rng, 0, 0, 1, 10, 100, 500, 2000)}
+	return ruleDesc{Thr: vk.PickF(rng, 0.5, 1, 2, 3, 7, 10, 100, 1000), Interval: vk.PickU32(rng, 0, 0, 100, 1000, 10000), MaxQ: vk.PickU32(rng, 0, 0, 1, 10, 100, 500, 2000, 4294, 4295, 5000, 60000, 4294968, 4294967295)}
 }
 
 func load(res string, r ruleDesc) {
